@@ -13,6 +13,8 @@ def run(res, only=None):
     os.makedirs(wd, exist_ok=True)
     # the arbitrary-precision arithmetic of the model is validated against TLC's native integers first
     res.add_tlc(core.run_tlc("MC_Big", res.tier, os.path.join(wd, "big.out"), workers=8))
+    # Sum / Product over iterators of 0..3 integer vectors (empty iterators included): the fold machine MC_Fold.tla
+    core.fold_cases(res, cfgs, ["vec"], scalar="int")
     cases = os.path.join(wd, "cases.out")
     res.add_tlc(core.run_tlc("MC_C13", res.tier, cases, workers=12, extra_constants={"Seed": res.seed % 97},
                              timeout=7200))
